@@ -374,7 +374,9 @@ def run_http_retention(case, rec):
     gc.collect()
     alive = sum(1 for r in refs if r() is not None)
     if not refs:
-        raise HarnessError('no context objects were observed')
+        # the methods never ran (every request was refused?): nothing to judge here; an ERROR unless a real violation is found elsewhere
+        rec.nondet.append('http retention %s/%s: no context objects were observed' % (kind, req))
+        return 'unobserved'
     if alive:
         rec.violation('C13:b:request objects (contexts) retained by the %s integration after the replies (%s)' % (kind, req), case,
                       expected='0 of %d alive' % len(refs), observed=alive)
@@ -383,6 +385,51 @@ def run_http_retention(case, rec):
     rec.nontrivial_n += 1
     rec.counters['http retention runs'] += 1
     return alive
+
+
+def run_churn(case, rec):
+    """(a') short-lived dispatchers / re-registered implementations: handlers come and go (their memory is reused by the next
+    ones) while the process-wide default validator lives on; every handler must be bound by ITS OWN signature"""
+    kind = case['kind']
+    is_async = kind == 'async'
+    bad = 0
+    for k in range(case['cycles']):
+        n = 1 + (k * 7) % 4            # number of required parameters of this generation's handler
+        names = ['p%d_%d' % (k % 3, i) for i in range(n)]
+        ns = {}
+        exec('%sdef handler(%s):\n    return [%s]\n' % ('async ' if is_async else '', ', '.join(names), ', '.join(names)), ns)
+        d = pjrpc.server.AsyncDispatcher() if is_async else pjrpc.server.Dispatcher()
+        if case['mode'] == 'replace' and k:
+            d = case.setdefault('_d', d)
+        d.add(ns['handler'], name='h')
+        for params, ok in ((list(range(n)), True), ({nm: i for i, nm in enumerate(names)}, True), (list(range(n + 1)), False)):
+            text = json.dumps({'jsonrpc': '2.0', 'id': k, 'method': 'h', 'params': params})
+            if is_async:
+                loop = VLoop()
+                try:
+                    r = loop.run(d.dispatch(text))
+                finally:
+                    loop.close()
+            else:
+                r = d.dispatch(text)
+            resp = json.loads(r[0])
+            rec.transitions += 1
+            good = (resp.get('result') == list(range(n))) if ok else (resp.get('error', {}).get('code') == -32602)
+            if not good:
+                bad += 1
+                rec.violation('C13:a:a handler is bound by the signature of an earlier, discarded handler', dict({k_: v for k_, v in case.items() if k_ != '_d'}, generation=k, params=params),
+                              expected='result' if ok else -32602, observed=resp)
+                break
+        del d, ns
+        gc.collect()
+        if bad:
+            break
+    case.pop('_d', None)
+    rec.traces += 1
+    rec.states += 1
+    rec.nontrivial_n += 1
+    rec.counters['churn runs'] += 1
+    return bad
 
 
 def run_cancel(case, rec):
@@ -597,6 +644,9 @@ def gen_cases(ctx):
     for req in ('batch', 'ctx', 'view', 'ok', 'pdok'):
         for steps in (1, 2, 3, 5):
             yield dict(part='cancel', request=req, steps=steps)
+    for kind in ('sync', 'async'):
+        for mode in ('fresh', 'replace'):
+            yield dict(part='churn', kind=kind, mode=mode, cycles=60)
     for integration in ('werkzeug', 'aiohttp'):
         for req in ('call', 'notif', 'notif-batch', 'fail', 'mixed', 'alternate'):
             yield dict(part='http', integration=integration, request=req)
@@ -623,18 +673,15 @@ def gen_cases(ctx):
 def run_case(case, rec):
     from mc.core import Recorder
     r = Recorder()
-    if case['part'] == 'a':
-        obs = run_history(case, r)
-    elif case['part'] == 'b':
-        obs = run_retention(case, r)
-    elif case['part'] == 'cancel':
-        obs = run_cancel(case, r)
-    elif case['part'] == 'http':
-        obs = run_http_retention(case, r)
-    elif case['part'] == 'overlap':
-        obs = run_overlap(case, r)
-    else:
-        obs = run_threads_case(case, r)
+    runner = {'a': run_history, 'b': run_retention, 'cancel': run_cancel, 'http': run_http_retention, 'churn': run_churn,
+              'overlap': run_overlap}.get(case['part'], run_threads_case)
+    try:
+        obs = runner(case, r)
+    except HarnessError as e:
+        # an exploration that does not replay (behaviour depending on something the explorer does not own, e.g. memory addresses):
+        # not fatal at once - a genuine violation found elsewhere is still reported; without one the run ends as an ERROR
+        r.nondet.append('part %s %s: %s' % (case['part'], {k: v for k, v in case.items() if k not in ('part', '_d')}, e))
+        obs = 'not replayable'
     r.counters['part ' + case['part']] += 1
     rec.merge(r)
     return obs
